@@ -10,3 +10,4 @@ PROPERTY_RULES["C16"] = ["r_slot", "r08_index"]
 PROPERTY_RULES["C19"] = ["r23_detcheck"]
 PROPERTY_RULES["C19"] = ["r23_detcheck", "r34b_pivot"]
 PROPERTY_RULES["C11"] = ["r15_fail", "r15c_ignored", "r_slot"]
+PROPERTY_RULES["C10"] = ["r33_range"]
